@@ -132,6 +132,26 @@ func programs(tier string) []Program {
 					return []func(){func() { p.PodDeleted(last) }, reconcileBody(p, "s", &errsSink)}
 				}
 			}),
+		// the same two situations with the environment event IN FLIGHT: the consumer completes / is deleted
+		// while the bind is already past its node-wide sync (the event is the first step of the handler thread)
+		mk("complete(c0)+handler||bind joining-group", []string{"complete+pod-completed(c0)", "reconcile(b)"}, []br.Workload{fracWL("c0", "0.3", "g1")}, fracWL("b", "0.5", "g1"), nil,
+			func(w *br.World, sc *br.Scenario) func(w *br.World, p *br.Proc) []func() {
+				return func(w *br.World, p *br.Proc) []func() {
+					return []func(){func() {
+						old, cur := w.EnvSetPhase("c0", v1.PodSucceeded)
+						p.PodUpdated(old, cur)
+					}, reconcileBody(p, "b", &errsSink)}
+				}
+			}),
+		mk("delete(c0)+handler||bind joining-group", []string{"delete+pod-deleted(c0)", "reconcile(b)"}, []br.Workload{fracWL("c0", "0.3", "g1")}, fracWL("b", "0.5", "g1"), nil,
+			func(w *br.World, sc *br.Scenario) func(w *br.World, p *br.Proc) []func() {
+				return func(w *br.World, p *br.Proc) []func() {
+					return []func(){func() {
+						last := w.EnvDeletePod("c0")
+						p.PodDeleted(last)
+					}, reconcileBody(p, "b", &errsSink)}
+				}
+			}),
 		// three threads: two binds on one group plus the startup Sync that runs while the manager already reconciles
 		mk("bind||bind||startup-sync", []string{"reconcile(a)", "reconcile(b)", "Sync"}, []br.Workload{fracWL("c0", "0.3", "g1")}, fracWL("a", "0.5", "g1"), []br.Workload{fracWL("b", "0.2", "g1")},
 			func(w *br.World, sc *br.Scenario) func(w *br.World, p *br.Proc) []func() {
